@@ -143,7 +143,7 @@ func checkResponseInputImmutable(c *Ctx, r *Report, rule string) {
 					root = root.Parent()
 				}
 				construct := fmt.Sprintf("%s writes %s.Input#%d", shortFn(fn), tn, k)
-				if strings.HasPrefix(root.Name(), "New") && root.Signature.Recv() == nil {
+				if isConstructorCode(c, root) {
 					r.OK(rule, construct, c.Pos(in.Pos()), "set by the constructor from what is about to be sent")
 				} else {
 					r.Bad(rule, construct, c.Pos(in.Pos()), "the response's record of what was sent is rewritten after construction: what the caller reads as Input is no longer what went over the wire")
@@ -617,4 +617,73 @@ func keyDecidedByOwnMatchOnly(key ssa.Value, isOwnMatch func(ssa.Value) bool) (b
 		}
 	}
 	return true, token.NoPos
+}
+
+// ---- constructor-only helpers -------------------------------------------------------------------------------------
+
+var ctorOnlyCache map[*ssa.Function]bool
+
+// isConstructorCode: fn is a constructor (a New* function, or a closure inside one), or an unexported helper that is
+// only ever called -- statically, never taken as a value -- from constructor code (three levels).
+func isConstructorCode(c *Ctx, fn *ssa.Function) bool {
+	if ctorOnlyCache == nil {
+		callers := map[*ssa.Function][]*ssa.Function{}
+		asValue := map[*ssa.Function]bool{}
+		for _, f := range c.LibFns {
+			root := f
+			for root.Parent() != nil {
+				root = root.Parent()
+			}
+			allInstrs(f, func(in ssa.Instruction) {
+				var callee *ssa.Function
+				if ci, ok := in.(ssa.CallInstruction); ok {
+					callee = ci.Common().StaticCallee()
+					if callee != nil {
+						callers[callee] = append(callers[callee], root)
+					}
+				}
+				for _, op := range in.Operands(nil) {
+					if op == nil || *op == nil {
+						continue
+					}
+					if g, ok := (*op).(*ssa.Function); ok && g != callee {
+						asValue[g] = true
+					}
+				}
+			})
+		}
+		ctorOnlyCache = map[*ssa.Function]bool{}
+		isNew := func(f *ssa.Function) bool {
+			return strings.HasPrefix(f.Name(), "New") && f.Signature.Recv() == nil
+		}
+		for _, f := range c.LibFns {
+			if f.Parent() == nil && isNew(f) {
+				ctorOnlyCache[f] = true
+			}
+		}
+		for round := 0; round < 3; round++ {
+			for _, f := range c.LibFns {
+				if f.Parent() != nil || ctorOnlyCache[f] || asValue[f] || len(callers[f]) == 0 {
+					continue
+				}
+				if o := f.Object(); o == nil || o.Exported() {
+					continue
+				}
+				all := true
+				for _, cl := range callers[f] {
+					if !ctorOnlyCache[cl] {
+						all = false
+					}
+				}
+				if all {
+					ctorOnlyCache[f] = true
+				}
+			}
+		}
+	}
+	root := fn
+	for root.Parent() != nil {
+		root = root.Parent()
+	}
+	return ctorOnlyCache[root]
 }
